@@ -26,6 +26,7 @@ mod c22;
 mod c23;
 mod childsrv;
 mod fuzzrun;
+mod c38;
 mod c05;
 mod c26;
 mod c27;
@@ -41,6 +42,9 @@ fn main() {
     let args: Vec<String> = std::env::args().collect();
     if args.len() >= 3 && args[1] == "--crash-child" {
         crash::child_main(&args[2]);
+    }
+    if args.len() >= 3 && args[1] == "--c38-child" {
+        c38::child_main(&args[2]);
     }
     if args.len() >= 4 && args[1] == "--crash-observe" {
         crash::observe_main(&args[2], &args[3]);
@@ -128,6 +132,7 @@ fn main() {
         "C40" => crashchecks::main("C40", tier, replay.clone()),
         "C22" => c22::main(tier, replay.clone()),
         "C23" => c23::main(tier, replay.clone()),
+        "C38" => c38::main(tier, replay.clone()),
         "C05" => c05::main(tier, replay.clone()),
         "C26" => c26::main(tier, replay.clone()),
         "C27" => c27::main(tier, replay.clone()),
